@@ -9,6 +9,9 @@
  *   VERIF_FS_KILL_AT  k >= 1: kill before the k-th operation is performed
  *   VERIF_FS_PARTIAL  m >= 1 (with KILL_AT = k, when operation k is a write of more than m bytes):
  *                     write the first m bytes, then kill
+ *   VERIF_FS_FAIL_AT  f >= 1: the f-th operation fails and has no effect (open: EACCES, write: ENOSPC,
+ *                     rename: EXDEV; a close is performed and reports EIO); logged as
+ *                       openfail <path> | writefail <path> <n> | closefail <path> | renamefail <src> <dst>
  * libstdc++'s basic_filebuf goes through fopen / write / writev / fclose; plain POSIX and stdio
  * entry points are covered as well so that edits of the callback stay observable. */
 #define _GNU_SOURCE
@@ -41,6 +44,13 @@ static void log_raw(const char* s, size_t n)
     if (log_fd >= 0) { while (n) { long k = syscall(SYS_write, log_fd, s, n); if (k <= 0) break; s += k; n -= (size_t) k; } }
 }
 static void log_str(const char* s) { log_raw(s, strlen(s)); }
+
+#include <errno.h>
+static int fails_now(void)
+{
+    const char* f = getenv("VERIF_FS_FAIL_AT");
+    return f && op_count == atol(f);
+}
 
 static void die(void) { syscall(SYS_kill, getpid(), SIGKILL); for (;;) {} }
 
@@ -75,10 +85,12 @@ static void log_write(const char* path, const void* buf, size_t n)
 static void track(int fd, const char* path) { if (fd >= 0 && fd < MAXFD) { free(fd_path[fd]); fd_path[fd] = strdup(path); } }
 static const char* tracked(int fd) { return fd >= 0 && fd < MAXFD ? fd_path[fd] : NULL; }
 
-static void note_open(const char* path, const char* mode)
+static int note_open(const char* path, const char* mode)
 {
     before_op(0, 0);
+    if (fails_now()) { log_str("openfail "); log_str(path); log_str("\n"); errno = EACCES; return 1; }
     log_str("open "); log_str(path); log_str(" "); log_str(mode); log_str("\n");
+    return 0;
 }
 
 static const char* flags_mode(int flags)
@@ -94,7 +106,7 @@ FILE* fopen(const char* path, const char* mode)
     static FILE* (*real)(const char*, const char*);
     if (!real) real = dlsym(RTLD_NEXT, "fopen");
     int w = watched(path) && mode && mode[0] != 'r';
-    if (w) note_open(path, mode);
+    if (w && note_open(path, mode)) return NULL;
     FILE* f = real(path, mode);
     if (w && f) track(fileno(f), path);
     return f;
@@ -104,7 +116,7 @@ FILE* fopen64(const char* path, const char* mode)
     static FILE* (*real)(const char*, const char*);
     if (!real) real = dlsym(RTLD_NEXT, "fopen64");
     int w = watched(path) && mode && mode[0] != 'r';
-    if (w) note_open(path, mode);
+    if (w && note_open(path, mode)) return NULL;
     FILE* f = real(path, mode);
     if (w && f) track(fileno(f), path);
     return f;
@@ -112,7 +124,7 @@ FILE* fopen64(const char* path, const char* mode)
 static int open_common(const char* name, int dirfd, const char* path, int flags, mode_t m)
 {
     int w = watched(path) && (flags & O_ACCMODE) != O_RDONLY;
-    if (w) note_open(path, flags_mode(flags));
+    if (w && note_open(path, flags_mode(flags))) return -1;
     int fd = (int) syscall(SYS_openat, dirfd, path, flags, m);
     if (w && fd >= 0) track(fd, path);
     (void) name;
@@ -130,6 +142,7 @@ ssize_t write(int fd, const void* buf, size_t n)
     {
         long part = before_op(1, n);
         if (part >= 0) { long k = syscall(SYS_write, fd, buf, (size_t) part); log_write(p, buf, k > 0 ? (size_t) k : 0); die(); }
+        if (fails_now()) { char head[64]; log_str("writefail "); log_str(p); snprintf(head, sizeof head, " %zu\n", n); log_str(head); errno = ENOSPC; return -1; }
         log_write(p, buf, n);
         /* complete the whole write so that the log is exact */
         size_t done = 0;
@@ -164,8 +177,10 @@ int fclose(FILE* f)
     {
         fflush(f);                       /* buffered bytes are written (and logged) before the close is counted */
         before_op(0, 0);
-        log_str("close "); log_str(p); log_str("\n");
+        int bad = fails_now();
+        log_str(bad ? "closefail " : "close "); log_str(p); log_str("\n");
         free(fd_path[fd]); fd_path[fd] = NULL;
+        if (bad) { real(f); errno = EIO; return EOF; }
     }
     return real(f);
 }
@@ -175,8 +190,10 @@ int close(int fd)
     if (p)
     {
         before_op(0, 0);
-        log_str("close "); log_str(p); log_str("\n");
+        int bad = fails_now();
+        log_str(bad ? "closefail " : "close "); log_str(p); log_str("\n");
         free(fd_path[fd]); fd_path[fd] = NULL;
+        if (bad) { syscall(SYS_close, fd); errno = EIO; return -1; }
     }
     return (int) syscall(SYS_close, fd);
 }
@@ -185,6 +202,7 @@ int rename(const char* a, const char* b)
     if (watched(a) || watched(b))
     {
         before_op(0, 0);
+        if (fails_now()) { log_str("renamefail "); log_str(a); log_str(" "); log_str(b); log_str("\n"); errno = EXDEV; return -1; }
         log_str("rename "); log_str(a); log_str(" "); log_str(b); log_str("\n");
     }
     return (int) syscall(SYS_renameat2, AT_FDCWD, a, AT_FDCWD, b, 0);
